@@ -101,6 +101,11 @@ fn run_trip(ctx: &Ctx, id: u64, st: &mut Stats) {
     // snapshot is taken. They must change nothing – neither the machine nor what gets saved.
     if is128 && c0.locked && rng.chance(2, 3) {
         let keep = ma.regs();
+        // the helper steps must not accept a frame interrupt (it would push onto the stack)
+        let mut quiet = keep;
+        quiet.iff1 = false;
+        quiet.iff2 = false;
+        ma.set_regs(&quiet);
         for _ in 0..1 + rng.below(3) {
             let v = rng.u8();
             ma.out(0x7FFD, v);
